@@ -173,6 +173,24 @@ def tlc_trees_keyprop(ctx):
     return out
 
 
+def tlc_trees_dt(ctx):
+    """CimWireMCDt.cfg: model check (must pass) of datetime values in every
+    value position x shape x UTC offset class, and the trees TLC visited,
+    each with the offset class of its elements"""
+    r = ctx.tlc("CimWireMC", "CimWireMCDt.cfg", workers=1, jvm=JVM,
+                label="object level, repaired design: datetime values in "
+                      "every value position (property, array entry, "
+                      "qualifier, qualifier declaration, keybinding, "
+                      "parameter value) x UTC offset class (zero / whole "
+                      "hours east, west / not whole hours east, west); "
+                      "enumeration of the trees for the binding")
+    out = []
+    for v in r.printed("DTTREE"):
+        v = vlib.unset(v)
+        out.append((v[1], v[2], list(v[3])))
+    return out
+
+
 def parse_cex_string(out):
     """the string of the last state of a TLC counterexample"""
     j = out.rfind("/\\ s = ")
@@ -319,6 +337,34 @@ def keyprop_unit_cases(rng, rounds):
     return out
 
 
+DT_POSITIONS = [("prop", "scalar", "root"), ("prop", "scalar", "inst"),
+                ("prop", "scalar", "class"), ("prop", "v", "root"),
+                ("prop", "vn", "inst"), ("prop", "nv", "root"),
+                ("prop", "vv", "class"), ("prop", "nvnv", "root"),
+                ("qual", "scalar", "root"), ("qual", "scalar", "inst"),
+                ("qual", "vv", "root"), ("qdecl", "scalar", "root"),
+                ("qdecl", "v", "root"), ("kb", "scalar", "ipath"),
+                ("pval", "scalar", "root"), ("pval", "vv", "root"),
+                ("pval", "vn", "root")]
+
+
+def dt_unit_cases(rng, rounds):
+    """spec/CimWire.tla DtOffsetClass, concretised: every UTC offset class
+    x every value position / array shape, several offsets and timestamp
+    forms (full, reduced precision) per class"""
+    out = []
+    for rnd in range(rounds):
+        for cl in H.DT_OFFSET_CLASSES:
+            for kind, sh, where in DT_POSITIONS:
+                for rep in range(3 if cl.endswith("frac") else 1):
+                    els = H.unit_tree(kind, "datetime", sh, ["ts:" + cl],
+                                      where)
+                    c = tree_case(rng, els, "unit-dt", exotic=False)
+                    c["dtclass"] = [cl]
+                    out.append(c)
+    return out
+
+
 def tree_case(rng, els, src, exotic=None):
     return {"gen": "obj", "src": src, "spec": {
         "els": els, "mode": rng.choice(["entity", "cdata"]),
@@ -436,6 +482,17 @@ def corrupted_copies(events, verdicts):
                 c["got2"][i]["val"][0] += "1"
                 out.append((c, "SecondRound.object"))
                 done.add("val")
+            if el["type"] == "datetime" and el["val"] and \
+                    el["val"][-1][-4:-3] in ("+", "-") and \
+                    "dtoffset" not in done:
+                # the UTC offset of a timestamp changed, hhmmss unchanged
+                # (+000 -> +030, -300 -> -270, -210 -> -150)
+                c = copy.deepcopy(e)
+                m = int(el["val"][-1][-4:]) + 30
+                c["got"][i]["val"][-1] = el["val"][-1][:-4] + \
+                    "%s%03d" % ("-" if m < 0 else "+", abs(m) % 1000)
+                out.append((c, "Values.datetime"))
+                done.add("dtoffset")
             if el["path"].startswith("/path/kb:") and "ownkey" not in done:
                 # the keybinding of the instance's own path takes over the
                 # value of the same-named property (key propagation)
@@ -569,6 +626,11 @@ def run(ctx):
              "bool(text)")):
         must_fail(ctx, "CimWireMC", cfg, "ImplMeetsReq",
                   "pinned tree: " + what, sens)
+    must_fail(ctx, "CimWireMC", "CimWireMCDtTrunc.cfg", "ImplMeetsReq",
+              "regression variant: CIMDateTime.minutes_from_utc as truncated "
+              "hours * 60 + minutes of the absolute value: a negative UTC "
+              "offset that is not a whole number of hours is written as "
+              "another offset", sens)
     must_fail(ctx, "CimWireMC", "CimWireMCBadNorm.cfg", "ReqAcceptsBadNorm",
               "requirement rejects a wrong DSP0201 default", sens)
     ctx.extra["sensitivity"] = sens
@@ -635,6 +697,17 @@ def run(ctx):
                         rng, H.emb_unit_tree(kind, emb, sh, where, hp="Y"),
                         "unit-emb-path"))
 
+    # datetime timestamps: UTC offset class x value position (DtOffsetClass)
+    dtrees = tlc_trees_dt(ctx)
+    ctx.extra["tlc_trees_enumerated_datetime"] = len(dtrees)
+    for dmode, recs, dcls in dtrees:
+        c = tree_case(rng, H.from_builder(recs, rng, refine_dt=False),
+                      "tlc-enum-dt",
+                      exotic=False)
+        c["dtclass"] = sorted({x for x in dcls if x != "none"})
+        cases.append(c)
+    cases += dt_unit_cases(rng, 1 if quick else 4)
+
     # -- 3. real code + TLC verdicts --------------------------------------------
     events, infos, kept = [], [], []
     refused = {}
@@ -690,12 +763,40 @@ def run(ctx):
                                       "an own-path keybinding in relation %r "
                                       "to the same-named property: %r" %
                                       (nrel.get(rel, 0), rel, nrel))
-    if len(corrupt) < 8 or "ownkey" not in corrupted_copies.done:
+    # every UTC offset class must have been exercised in every value
+    # position, with the offset the driver asked for in the ORIGINAL's token
+    ndt = {}
+    for c, e in zip(cases, events):
+        if c.get("dtclass"):
+            for el in e["orig"]:
+                toks = [t for t in el["val"] if t.startswith("d:") and
+                        t[-4] in "+-"]
+                if el["type"] == "datetime" and toks:
+                    m = int(toks[0][-4:])
+                    cl = ("zero" if m == 0 else
+                          ("pos" if m > 0 else "neg") +
+                          ("whole" if m % 60 == 0 else "frac"))
+                    if cl not in c["dtclass"]:
+                        raise vlib.MachineryError(
+                            "datetime offset class of the original's "
+                            "projection %r is not the class asked for %r" %
+                            (toks[0], c["dtclass"]))
+                    key = "%s@%s" % (cl, el["et"])
+                    ndt[key] = ndt.get(key, 0) + 1
+    ctx.extra["events_per_datetime_offset_class_and_position"] = ndt
+    for cl in H.DT_OFFSET_CLASSES:
+        for et in ("prop", "qual", "qdecl", "kb", "pval"):
+            if ndt.get("%s@%s" % (cl, et), 0) < 2:
+                raise vlib.MachineryError(
+                    "vacuous: datetime offset class %s at %s: %r" %
+                    (cl, et, ndt))
+    if len(corrupt) < 8 or "ownkey" not in corrupted_copies.done or \
+            "dtoffset" not in corrupted_copies.done:
         raise vlib.MachineryError("too few corrupted copies (%d; %s)" %
                                   (len(corrupt), sorted(corrupted_copies.done)))
     sens.append("%d corrupted copies of accepted events (value token, NULL "
                 "entry, one of two NULL entries dropped, dropped element, flavor, propagated, child order, "
-                "namespace, type, second round, own-path keybinding overwritten by "
+                "namespace, type, second round, datetime UTC offset, own-path keybinding overwritten by "
                 "the same-named property) rejected by TLC with the "
                 "expected clause" % len(corrupt))
 
@@ -753,6 +854,14 @@ def run(ctx):
         "embedded instances whose `path` attribute is set are generated "
         "(units; TLC: CimWireMCStruct*.cfg, CimWireMCEmbPath.cfg); the path "
         "of an embedded instance is not transmitted and not compared",
+        "datetime timestamps: UTC offset classes zero / whole hours east, "
+        "west / not whole hours east, west (several offsets each, incl. "
+        "+-001, +-030, -210, -570, +-999) in every value position; the "
+        "projection writes the DSP0004 text of a CIMDateTime from its "
+        "datetime / timedelta / precision attributes itself (not str(), "
+        "which is what the encoder writes); offsets beyond 3 digits, "
+        "negative intervals, intervals >= 10^8 days are not CIM datetime "
+        "values and not generated",
         "array values: NULL multiplicity none / one / two or more (shapes "
         "of CimWireMC!ShapeSeq, <= 4 entries, <= 2 NULL entries); arrays of "
         "embedded objects / references with several NULL entries are "
